@@ -1609,9 +1609,14 @@ func (up4 *UP4) modifyUP4ForwardingConfiguration(pdrs []pdr, allFARs []far, qers
 					continue
 				}
 
+				// the other updates of the batch may have been applied: a failed establishment takes them back
+				// while the PDR's application (part of the key of its terminations entry) is still known
+				if methodType == p4.Update_INSERT {
+					_ = up4.p4client.ApplyTableEntries(p4.Update_DELETE, entriesToApply...)
+				}
+
 				releaseNewApplication()
 
-				// the other updates of the batch may have been applied
 				if writtenFARs != nil {
 					*writtenFARs = append(*writtenFARs, pdr.farID)
 				}
